@@ -120,6 +120,11 @@ impl<T> VRwLock<T> {
 /// R9: `Arc<tokio::sync::Mutex<T>>` — `lock()` gives `&mut T` (same assumption)
 pub struct VMutex<T> { pub inner: T }
 impl<T> VMutex<T> {
+    /// R9: `lock()` in a `&self` function that only reads through the guard
+    #[verifier::external_body]
+    pub fn lock_shared(&self) -> (g: &T)
+        ensures *g == self.inner,
+    { &self.inner }
     #[verifier::external_body]
     pub fn lock(&mut self) -> (g: &mut T)
         ensures *g == old(self).inner, final(self).inner == *final(g),
@@ -286,6 +291,12 @@ impl AccessPoint {
     pub fn read_secret(&self, id: &SecretId) -> (r: BkResult<Option<(SecretMeta, Secret, ReadEvent)>>)
         ensures r is Ok ==> self.unlocked() && (r->Ok_0 is Some <==> m_has(self.vv().secrets, id@))
             && (r->Ok_0 matches Some(t) ==> open_row(self.kc(), m_get(self.vv().secrets, id@)->Some_0) == Some((t.0@, t.1@))),
+    { unimplemented!() }
+    /// vaultmem [raw_is_lookup]
+    #[verifier::external_body]
+    pub fn raw_secret(&self, id: &SecretId) -> (r: BkResult<Option<(VaultCommit, ReadEvent)>>)
+        ensures r is Ok ==> (r->Ok_0 is Some <==> m_has(self.vv().secrets, id@))
+            && (r->Ok_0 matches Some(p) ==> Some(p.0@) == m_get(self.vv().secrets, id@)),
     { unimplemented!() }
     /// crates/vault/src/access_point.rs `create_secret` -> vault.rs:1010 `Vault::insert_secret`:
     /// `self.contents.data.entry(id).or_insert(VaultCommit(commit, secret))`, event =
